@@ -24,7 +24,9 @@ func NewVC(eng *Engine, fn *ssa.Function, spec *FuncSpec) *VC {
 
 func (vc *VC) reset(dry bool) {
 	vc.dry = dry
-	vc.decls, vc.dset, vc.facts, vc.obls, vc.n = nil, map[string]bool{}, nil, nil, 0
+	c0 := 0
+	vc.ctr = &c0
+	vc.decls, vc.dset, vc.facts, vc.obls = nil, map[string]bool{}, nil, nil
 	vc.comps = map[string]*Comp{}
 	vc.vals, vc.tuples, vc.addrs = map[ssa.Value]Term{}, map[ssa.Value][]Term{}, map[ssa.Value]*Addr{}
 	vc.strlits, vc.typetags = map[string]string{}, map[string]int{}
@@ -168,6 +170,13 @@ func (vc *VC) run() {
 			}
 		}
 	}
+	(*vc.ctr)++
+	vc.entrySeq = *vc.ctr
+	vc.runBlocks()
+}
+
+func (vc *VC) runBlocks() {
+	fn := vc.fn
 	for pos, bi := range vc.rpo {
 		b := fn.Blocks[bi]
 		vc.curBlk, vc.curIdx = pos, -1
@@ -208,7 +217,7 @@ func (vc *VC) edge(p, b *ssa.BasicBlock) string {
 			cond = "(not " + c + ")"
 		}
 	}
-	name := fmt.Sprintf("E_%d_%d", p.Index, b.Index)
+	name := fmt.Sprintf("%sE_%d_%d", vc.pfx, p.Index, b.Index)
 	vc.define(name, "Bool", fmt.Sprintf("(and %s %s)", r, cond))
 	vc.edgeTerm[k] = name
 	return name
@@ -234,7 +243,7 @@ func (vc *VC) enterBlock(b *ssa.BasicBlock) {
 	for _, p := range preds {
 		es = append(es, vc.edge(p, b))
 	}
-	rname := fmt.Sprintf("R_%d", b.Index)
+	rname := fmt.Sprintf("%sR_%d", vc.pfx, b.Index)
 	if len(es) == 1 {
 		vc.define(rname, "Bool", es[0])
 	} else {
@@ -262,8 +271,8 @@ func (vc *VC) enterBlock(b *ssa.BasicBlock) {
 			for k := range vc.comps {
 				keys[k] = true
 			}
-			vc.n++
-			merged = Heap{m: map[string]string{}, epoch: vc.n}
+			(*vc.ctr)++
+			merged = Heap{m: map[string]string{}, epoch: (*vc.ctr)}
 		}
 		var ks []string
 		for k := range keys {
@@ -1085,6 +1094,14 @@ func (vc *VC) resultNames() []string {
 }
 
 func (vc *VC) ret(x *ssa.Return) {
+	if vc.inl {
+		r := inlRet{guard: vc.reach[vc.curBlk], heap: vc.heap.clone()}
+		for _, v := range x.Results {
+			r.results = append(r.results, vc.val(v))
+		}
+		vc.rets = append(vc.rets, r)
+		return
+	}
 	if vc.spec == nil {
 		return
 	}
